@@ -129,6 +129,12 @@ def handle_path_command(args: argparse.Namespace) -> None:  # noqa: PLR0912, D10
             raise
         sys.stderr.write(f"name error: {err}\n")
         sys.exit(1)
+    except RecursionError as err:
+        # A query nested more deeply than the parser can recurse.
+        if args.debug:
+            raise
+        sys.stderr.write(f"recursion error: {err}\n")
+        sys.exit(1)
 
     try:
         data = json.load(args.file)
